@@ -134,6 +134,9 @@ pub fn install_quiet_panic_hook() {
             .location()
             .map(|l| format!("{}:{}", l.file(), l.line()))
             .unwrap_or_default();
+        if std::env::var("VERIF_PANIC_TRACE").is_ok() {
+            eprintln!("[panic] {} @ {} (thread {:?})", msg, loc, std::thread::current().name());
+        }
         LAST_PANIC.with(|p| *p.borrow_mut() = Some(format!("{} @ {}", msg, loc)));
     }));
 }
